@@ -16,7 +16,7 @@ impl Property for C20 {
         "C20"
     }
     fn rule(&self) -> &'static str {
-        "profile `layout`: a generated program - valid, or (1 in 4) broken by one grammar-breaking edit - printed twice from one token sequence: canonical (single blanks, LF, no comments) and re-laid-out with every freedom the statement lists, all after the header line (blank space widened / tabs / CR / removed where adjacency is safe - between a symbol and anything, and between a number and a directly following X / Z / C entry, which lex as the same two tokens (`0X`, `12z`; not C after a hex literal) -, a CR before the LF of all or of some lines, trailing # comments, inserted blank and comment-only lines, literals rewritten in decimal / 0x / 0X either digit case / 0b / 0B / leading-zero octal). Oracle (metamorphic, no reference semantics): same Ok/Err from parsing, same from binding, and equal items from equally scripted runs (dynamic, and static when possible) except `line`, which must move exactly to where the printer put that row. Non-trivial: the two texts differ in >= 3 kinds of layout change including a radix change or a removed blank; distinct by both texts."
+        "profile `layout`: a generated program - valid, or (1 in 4) broken by one grammar-breaking edit - in one case in eight with one literal replaced by a value in 2^63 .. 2^64-1 - printed twice from one token sequence: canonical (single blanks, LF, no comments) and re-laid-out with every freedom the statement lists, all after the header line (blank space widened / tabs / CR / removed where adjacency is safe - between a symbol and anything, and between a number and a directly following X / Z / C entry, which lex as the same two tokens (`0X`, `12z`; not C after a hex literal) -, a CR before the LF of all or of some lines, trailing # comments, inserted blank and comment-only lines, literals rewritten in decimal / 0x / 0X either digit case / 0b / 0B / leading-zero octal). Oracle (metamorphic, no reference semantics): same Ok/Err from parsing, same from binding, and equal items from equally scripted runs (dynamic, and static when possible) except `line`, which must move exactly to where the printer put that row. Non-trivial: the two texts differ in >= 3 kinds of layout change including a radix change or a removed blank; distinct by both texts."
     }
     fn cases(&self, tier: Tier) -> u64 {
         match tier {
@@ -28,7 +28,7 @@ impl Property for C20 {
         [400, 400, 60]
     }
     fn required_classes(&self) -> Vec<&'static str> {
-        vec!["reradixed", "removed-blank", "tabs-or-cr", "trailing-comment", "inserted-lines", "broken-program", "valid-program", "rows-compared", "static-compared", "number-joined-to-X/Z/C", "mixed-line-ends"]
+        vec!["reradixed", "removed-blank", "tabs-or-cr", "trailing-comment", "inserted-lines", "broken-program", "valid-program", "rows-compared", "static-compared", "number-joined-to-X/Z/C", "mixed-line-ends", "literal-beyond-i64"]
     }
     fn run(&self, s: &Streams) -> CaseOut {
         let mut out = CaseOut::new();
@@ -46,6 +46,30 @@ impl Property for C20 {
             }
         } else {
             out.class("valid-program");
+        }
+        // one program in eight has one of its literals replaced by a value beyond the 64-bit
+        // signed range (2^63 .. 2^64-1): whatever the verdict on such a literal is, it is the
+        // same in every radix
+        if dch.chance(1, 8) {
+            let sites: Vec<(usize, usize)> = lines
+                .iter()
+                .enumerate()
+                .filter(|(_, l)| l.kind != LineKind::Header)
+                .flat_map(|(li, l)| l.toks.iter().enumerate().filter(|(_, t)| matches!(t.class, TokClass::Num(..))).map(move |(ti, _)| (li, ti)))
+                .collect();
+            if !sites.is_empty() {
+                let (li, ti) = sites[dch.upto(sites.len())];
+                if let TokClass::Num(_, r) = lines[li].toks[ti].class {
+                    let v = match dch.upto(4) {
+                        0 => 1u64 << 63,
+                        1 => u64::MAX,
+                        2 => (1u64 << 63) + 5,
+                        _ => dch.u64() | (1u64 << 63),
+                    };
+                    lines[li].toks[ti] = Tok { text: fmt_num(v, r), class: TokClass::Num(v, r) };
+                    out.class("literal-beyond-i64");
+                }
+            }
         }
         let mut o1 = LayoutOpts::CANON;
         let mut o2 = LayoutOpts::AFTER_HEADER;
